@@ -886,6 +886,14 @@ class R:
             self.emit(1, "'''Docstring, so that None is not among the first 256 constants.'''")
             self.emit(1, "s = 'A' * 400")
             self.emit(1, "big = [%s]" % ", ".join("s[%d]" % i for i in range(300)))
+        cl = self.p.get("closure", 0)
+        if cl in (1, 3):
+            self.emit(1, "fns_ = [(lambda: item_) for item_ in (1, 2)]")
+        if cl in (2, 3):
+            self.emit(1, "argcap_ = lambda: c")
+        if cl == 4:
+            self.emit(1, "cellv_ = 5")
+            self.emit(1, "def inner_(): return cellv_")
         self.emit(1, "FR.append(sys._getframe())")
         if any(it.get("target") == "global_name" for it in _all_items(self.p["body"])):
             self.emit(1, "global GV")
